@@ -37,6 +37,7 @@ type OpSpec struct {
 	OmitDelta          bool
 	RequestDelta       interface{}                      // delta placed in the request instead of the honest one (hash stays honest)
 	PayloadEdit        func(p map[string]interface{})   // edit signed payload before signing
+	RawPayload         func(b []byte) []byte            // rewrite the serialized signed payload before signing (texts the value route cannot produce)
 	PostJWS            func(jws string) string          // tamper after signing
 	RequestEdit        func(req map[string]interface{}) // edit the request object before serialization
 	SuffixDataEdit     func(sd map[string]interface{})  // create: edit suffix data before hashing
@@ -143,7 +144,11 @@ func (s *OpSpec) Build(r *fw.Rand) *Built {
 		if hdr == nil {
 			hdr = map[string]interface{}{"alg": s.Signer.Alg()}
 		}
-		b.JWS = CompactJWS(r, hdr, oracle.MustJCS(payload), s.Signer)
+		pb := oracle.MustJCS(payload)
+		if s.RawPayload != nil {
+			pb = s.RawPayload(pb)
+		}
+		b.JWS = CompactJWS(r, hdr, pb, s.Signer)
 		if s.PostJWS != nil {
 			b.JWS = s.PostJWS(b.JWS)
 		}
